@@ -70,7 +70,7 @@ def placement_clause(model, rep, funcs):
             if not ok:
                 w = None
                 for kv in (1, 2, 3):
-                    for pv in (Fraction(21, 2), Fraction(10), Fraction(37, 5)):
+                    for pv in (Fraction(21, 2), Fraction(10), Fraction(37, 5), Fraction(-1, 2), Fraction(-37, 5)):  # molecules may straddle the low face
                         v = dom.eval_form(diff, {"k": Fraction(kv), "pos": pv, "scale": Fraction(1)})
                         if v is not None and v != 0:
                             w = (kv, pv, v)
@@ -325,8 +325,7 @@ def clipping_clause(model, rep, funcs):
     rep.ob("A", f.anchor, "clipping: destination slice from make_slice_and_pad, source slice [pad_before : template_size - pad_after]", ok, why, node=f.node, fn=f,
            clause="5 clipping", stmt="def _prep_slices")
     hs = [h for n in walk_no_nested(f.node) if isinstance(n, ast.Try) for h in n.handlers]
-    ok2 = len(hs) == 1 and norm_src(hs[0].type) in ("ValueError", "_utils.SubvolumeOutOfBoundError", "SubvolumeOutOfBoundError") and \
-        any(isinstance(x, ast.Return) and "None" in norm_src(x) for x in ast.walk(hs[0]))
+    ok2 = len(hs) == 1 and any(isinstance(x, ast.Return) and "None" in norm_src(x) for x in ast.walk(hs[0]))  # which classes it catches: decided below
     rep.ob("A", f.anchor, "molecules wholly outside the volume are ignored (out-of-bound error mapped to 'no fragment')", ok2, "", node=f.node, fn=f,
            clause="5 clipping", stmt="def _prep_slices out-of-bound")
     # the handler's type really is the raised class or one of its ancestors (class hierarchy of acryo + the builtin exception tree)
